@@ -10,6 +10,8 @@ split on \\r\\n | \\n | \\r).
 import os
 from typing import List
 
+from crosshair.tracers import NoTracing
+
 from lib.hx import conc, npart, part, silence, tick, tock
 
 silence()
@@ -190,6 +192,9 @@ SRV_CFG._load_config_file_general({"incremental_sync": True})
 # ... and switched off by the file although given on the command line
 SRV_CFG_OFF = LangServer(_Conn(), vars(cli("fortls").parse_args(["--incremental_sync"])))
 SRV_CFG_OFF._load_config_file_general({"incremental_sync": False})
+from lib import ws as _ws  # noqa: E402
+
+SRV_WS = _ws.make_server()
 for _s in (SRV_INC, SRV_FULL, SRV_CFG, SRV_CFG_OFF):
     _s.update_workspace_file = lambda path, **kw: (True, None)
 
@@ -227,7 +232,8 @@ def on_change(inc: bool, via_cfg: bool, d: int, sl: int, sc: int, el: int, ec: i
                    {"range": {"start": {"line": sl2, "character": sc2}, "end": {"line": el2, "character": ec2}}, "text": text2}]
     else:
         expect = ref_split(text)
-        changes = [{"text": text}]
+        # several whole-document texts in one notification apply in order: the last one is the document
+        changes = [{"text": text}] if u0 == 0 else [{"text": text2 + "\nzz"}, {"text": text}]
     srv.serve_onChange({"params": {"textDocument": {"uri": "file:///w/x.f90"}, "contentChanges": changes}})
     ok = f.contents_split == expect and invariant(f) and not any("failed" in str(o) for o in srv.conn.out)
     tock("on_change")
@@ -268,3 +274,36 @@ if os.environ.get("VERIF_C02_STUB") == "1":
 
     _P.detect_fixed_format = lambda lines: False
     FortranFile.get_code_line = lambda self, *a, **k: ([], "!", [])
+
+
+# ------------------------------------------------------------------------------------ (R) re-opening a document
+def reopen(ln: int, sc: int, ec: int, n: int, close: bool, s0: int) -> bool:
+    """didOpen, n single-line ranged edits (never saved), [didClose,] didOpen again while the file on disk is
+    unchanged: the client's text is the disk text again, and so must the server's be (also what it has indexed)
+    pre: 0 <= ln <= 2 and 0 <= sc <= ec <= 3 and 1 <= n <= 2 and 0 <= s0 <= 1
+    post: _
+    """
+    from lib import ws
+
+    tick("reopen")
+    ln, sc, ec, n, s0 = conc(ln, 0, 2), conc(sc, 0, 3), conc(ec, 0, 3), conc(n, 1, 2), conc(s0, 0, 1)
+    close = bool(close)
+    ok = True
+    with NoTracing():
+        path = ws.ROOT + "/r.f90"
+        disk = "module rmod\n  integer :: rvar\nend module rmod\n"
+        srv = ws.reset(SRV_WS, {path: disk})
+        want = ws.request(srv, "textDocument/documentSymbol", path, 0, 0)
+        uri = "file://" + path
+        for i in range(n):
+            srv.handle({"jsonrpc": "2.0", "method": "textDocument/didChange", "params": {"textDocument": {"uri": uri}, "contentChanges": [
+                {"range": {"start": {"line": ln, "character": sc}, "end": {"line": ln, "character": ec}}, "text": ["q", "x y"][s0]}]}})
+        if close:
+            srv.handle({"jsonrpc": "2.0", "method": "textDocument/didClose", "params": {"textDocument": {"uri": uri}}})
+        srv.handle({"jsonrpc": "2.0", "method": "textDocument/didOpen", "params": {"textDocument": {"uri": uri}}})
+        f = srv.workspace.get(path)
+        ok = f is not None and "\n".join(f.contents_split).rstrip("\n") == disk.rstrip("\n")
+        r = ws.request(srv, "textDocument/documentSymbol", path, 0, 0)
+        ok = ok and r[0] == "resp" and r == want
+    tock("reopen")
+    return ok
